@@ -368,7 +368,7 @@ async def impl_case(case):
             detail = got.hex()
     except _Unbounded:
         out = "hang"
-        detail = f"request still running after {_time_cap(case):.0f} virtual seconds (twice the proved bound)"
+        detail = f"request still running after {_time_cap(case):.0f} virtual seconds (beyond the proved bound)"
         del st.log[400:]
     except _RcFailed as e:
         out = f"rcfail:{st.rc_fail[0]}:{e.args[0]}"
@@ -452,11 +452,11 @@ class _WEscaped(Exception):
 
 
 class _Unbounded(Exception):
-    """the request did not end within the bound the theorems give (elapsed_le / elapsed_le_io), generously doubled"""
+    """the request did not end within the bound the theorems give (elapsed_le / elapsed_le_io), plus 10 % and a minute"""
 
 
 def _time_cap(case):
-    """virtual seconds after which a single request is declared unbounded: twice the bound of `elapsed_le` for the largest
+    """virtual seconds after which a single request is declared unbounded: 1.1 x the bound of `elapsed_le` for the largest
     configuration of the case (client / per-request timeout, retry budget), plus slack"""
     ts = [t for t in (case.get("ct"), case.get("rt")) if t]
     T = max(ts + [0]) / 1000
@@ -464,7 +464,7 @@ def _time_cap(case):
     mr = max(case.get("cm") or 0, case.get("rm") or 0)
     max_nt = int(-(-max(T, 20.0) // 0.5))
     attempt = max(T, lat) + (119 * (max_nt + 1) + max_nt + 2) * max(0.5, lat)
-    return 2 * ((mr + 1) * attempt + 0.2 * (2 ** (mr + 1))) + 60
+    return 1.1 * ((mr + 1) * attempt + 0.2 * (2 ** (mr + 1))) + 60
 
 
 async def _bounded(coro, cap):
